@@ -518,3 +518,98 @@ func infinityReadableRule(r *Report, p *Prog, rule string) int {
 	}
 	return n
 }
+
+// zeroBoundTagsRule (C03 ZERO-BOUND-TAGS): "<V" is declared empty when every
+// number of V is 0 ("nothing is below 0.0.0"). That holds only for a V without
+// prerelease tags: the prereleases of 0.0.0 are below one another, and
+// "<0.0.0-beta" matches 0.0.0-alpha in node-semver and in the semver crate.
+// Wherever package semver takes a branch on v.all(0), the same decision also
+// reads the prerelease tags of v.
+func zeroBoundTagsRule(r *Report, p *Prog, rule string) int {
+	n := 0
+	for _, f := range p.Funcs {
+		if f.Pkg == nil || f.Blocks == nil || f.Synthetic != "" || f.Pkg.Pkg.Path() != modPrefix+"semver" {
+			continue
+		}
+		per := 0
+		for _, b := range f.Blocks {
+			for _, in := range b.Instrs {
+				c, ok := in.(*ssa.Call)
+				if !ok || staticCalleeName(c) != "(*semver.Version).all" || len(c.Common().Args) != 2 {
+					continue
+				}
+				k, ok := c.Common().Args[1].(*ssa.Const)
+				if !ok || k.Value == nil || k.Value.Kind() != constant.Int {
+					continue
+				}
+				if v, _ := constant.Int64Val(k.Value); v != 0 {
+					continue
+				}
+				n++
+				per++
+				ver := c.Common().Args[0]
+				key := fmt.Sprintf("%s: all-zero test #%d also looks at the prerelease tags", fnKey(f), per)
+				// blocks entered knowing all(0) is true: from there, before any return,
+				// a branch on the tags of the same version
+				readsPre := func(v ssa.Value) bool {
+					u, ok := v.(*ssa.UnOp)
+					if !ok || u.Op != token.MUL {
+						return false
+					}
+					fa, ok := u.X.(*ssa.FieldAddr)
+					if !ok || !(fa.X == ver || sameVar(fa.X, ver)) {
+						return false
+					}
+					pt, ok := fa.X.Type().Underlying().(*types.Pointer)
+					if !ok {
+						return false
+					}
+					st, ok := pt.Elem().Underlying().(*types.Struct)
+					return ok && (st.Field(fa.Field).Name() == "pre" || st.Field(fa.Field).Name() == "isPrerelease")
+				}
+				isLenPre := func(v ssa.Value) bool {
+					if readsPre(v) {
+						return true
+					}
+					if call, ok := v.(*ssa.Call); ok {
+						if bi, ok := call.Common().Value.(*ssa.Builtin); ok && bi.Name() == "len" && readsPre(call.Common().Args[0]) {
+							return true
+						}
+					}
+					return false
+				}
+				ok2 := false
+				for _, g := range f.Blocks {
+					if len(g.Instrs) == 0 {
+						continue
+					}
+					ifi, isIf := g.Instrs[len(g.Instrs)-1].(*ssa.If)
+					if !isIf || !condDerives(ifi.Cond, 0, isLenPre) {
+						continue
+					}
+					// the tag test belongs to the same decision: the same block, or
+					// the next or the previous link of a short-circuit chain
+					if b == g {
+						ok2 = true
+					}
+					for _, s := range b.Succs {
+						if s == g {
+							ok2 = true
+						}
+					}
+					for _, s := range g.Succs {
+						if s == b {
+							ok2 = true
+						}
+					}
+				}
+				if ok2 {
+					r.ok(rule, key, p.pos(c.Pos()), "a branch on the prerelease tags of the same version follows the test")
+				} else {
+					r.bad(rule, key, p.pos(c.Pos()), "the bound is treated as the bottom of all versions because its numbers are all 0, and its prerelease tags are not looked at: \"<0.0.0-beta\" is declared empty although 0.0.0-alpha is below 0.0.0-beta (node-semver and the semver crate match it)")
+				}
+			}
+		}
+	}
+	return n
+}
